@@ -1,6 +1,7 @@
 /- Section resolution (`Model/ConfSection.lean`): the sorted multi-section result and its independence of the order in
 which the references are listed (C20). -/
 import ForML.Model.ConfSection
+import ForML.Lemmas.C20Conf
 
 namespace ForML.Conf
 
@@ -192,5 +193,66 @@ theorem entries_error (cfg : Cfg) (group kp kq kr prio0 : Nat) (rs : List Nat) (
       · subst hr; rw [h] at hf; cases hf
       · obtain ⟨e', he'⟩ := ih hr
         exact ⟨e', by simp [he']⟩
+
+/-! ### R5: what `Provider._extract` leaves at every key (`kwargs.pop('provider')`, `kwargs.update(kwargs.pop('params', {}))`) -/
+
+theorem lookup_filter_ne (k j : Nat) (t : Tbl) :
+    lookup k (t.filter (fun e => e.1 != j)) = if k = j then none else lookup k t := by
+  induction t with
+  | nil => simp [lookup]
+  | cons e r ih =>
+    obtain ⟨k', v⟩ := e
+    rw [List.filter_cons]
+    by_cases h : k' = j
+    · have hb : ((k', v).1 != j) = false := by simp [h]
+      simp only [hb, Bool.false_eq_true, ↓reduceIte]
+      rw [ih]
+      by_cases hk : k = j
+      · simp [hk]
+      · have hk' : ¬ k' = k := by omega
+        simp [hk, lookup, hk']
+    · have hb : ((k', v).1 != j) = true := by simp [h]
+      simp only [hb, ↓reduceIte]
+      by_cases hk : k' = k
+      · have hk' : ¬ k = j := by omega
+        simp [lookup, hk, hk']
+      · simp [lookup, hk, ih]
+
+/-- the options that survive the two `pop`s -/
+def restKw (kw : Tbl) (kp kq k : Nat) : Option Cfg := if k = kp ∨ k = kq then none else lookup k kw
+
+/-- no `params` table: the provider option is taken out, everything else is a generic option as written -/
+theorem extractKw_plain (kw : Tbl) (kp kq : Nat) (hne : kq ≠ kp) (h : lookup kq kw = none) :
+    ∃ out, extractKw kw kp kq = .ok (lookup kp kw, out) ∧ ∀ k, lookup k out = restKw kw kp kq k := by
+  have hq : lookup kq (kw.filter (fun e => e.1 != kp)) = none := by rw [lookup_filter_ne]; simp [hne, h]
+  refine ⟨(kw.filter (fun e => e.1 != kp)).filter (fun e => e.1 != kq), by simp only [extractKw, hq], ?_⟩
+  intro k
+  rw [lookup_filter_ne, lookup_filter_ne, restKw]
+  by_cases h1 : k = kq <;> by_cases h2 : k = kp <;> simp [h1, h2]
+
+/-- a `params` table: its entries win over the section's own options of the same name (`dict.update`), `provider` and
+`params` themselves are gone unless `params` brings them back -/
+theorem extractKw_params (kw : Tbl) (kp kq : Nat) (ps : Tbl) (hne : kq ≠ kp) (h : lookup kq kw = some (.table ps)) :
+    ∃ out, extractKw kw kp kq = .ok (lookup kp kw, out) ∧
+      ∀ k, lookup k out = match lookup k ps with
+        | some v => some v
+        | none => restKw kw kp kq k := by
+  have hq : lookup kq (kw.filter (fun e => e.1 != kp)) = some (.table ps) := by rw [lookup_filter_ne]; simp [hne, h]
+  refine ⟨((kw.filter (fun e => e.1 != kp)).filter (fun e => e.1 != kq)).filter (fun e => (lookup e.1 ps).isNone) ++ ps,
+    by simp only [extractKw, hq], ?_⟩
+  intro k
+  rw [lookup_append, lookup_filter_absent, lookup_filter_ne, lookup_filter_ne, restKw]
+  cases hps : lookup k ps with
+  | some v => simp
+  | none => by_cases h1 : k = kq <;> by_cases h2 : k = kp <;> simp [h1, h2] <;> (cases lookup k kw <;> rfl)
+
+/-- `params` that is not a table: the resolution fails, it never yields the remaining options only -/
+theorem extractKw_malformed (kw : Tbl) (kp kq : Nat) (v : Cfg) (hne : kq ≠ kp) (h : lookup kq kw = some v)
+    (hv : ∀ ps, v ≠ .table ps) : extractKw kw kp kq = .error .malformed := by
+  have hq : lookup kq (kw.filter (fun e => e.1 != kp)) = some v := by rw [lookup_filter_ne]; simp [hne, h]
+  cases v with
+  | table ps => exact absurd rfl (hv ps)
+  | scalar _ => simp only [extractKw, hq]
+  | list _ => simp only [extractKw, hq]
 
 end ForML.Conf
